@@ -88,7 +88,7 @@ def gen_config(rng, tier, flavor="db"):
         "lambda": lam,
         "error": err,
         "n_pos": n_pos,
-        "n_haps": min(2 ** n_pos, rng.choice([2, 2, 3, 4])),
+        "n_haps": min(2 ** n_pos, rng.choice([2, 2, 3, 4, 2, 3, 4, 6, 8])),
         "freqs": rng.choice(["flat", "skewed"]),
         "n_reads": [rng.choice([0, 1, 2, 3, 5, 6]) for _ in range(ns)],
         "padding_skew": rng.random() < 0.7,
